@@ -443,31 +443,54 @@ class BashRunner:
             self.dirs[key] = d
         return self.dirs[key]
 
-    def run(self, cases, jobs=8):
-        """-> list of ("OK", fields) | ("ERR",) | None (context not supported)"""
+    def run(self, cases, jobs=8, batch=40):
+        """-> list of ("OK", fields) | ("ERR",) | ("TIMEOUT",) | None (context not supported).
+        Cases are run in batches: one bash process evals each case's script in its own subshell
+        (a syntax error or a failglob abort stays inside its eval)."""
         from concurrent.futures import ThreadPoolExecutor
-        def one(c):
-            s = bash_script(c)
-            if s is None:
-                return None
-            try:
-                p = subprocess.run(["/usr/bin/bash", "--norc", "--noprofile", "-c", BASH_PRELUDE + s],
-                                   cwd=self.dir_for(c.names), stdout=subprocess.PIPE, stderr=subprocess.DEVNULL,
-                                   env={"LC_ALL": "C.UTF-8", "PATH": "/usr/bin:/bin"}, timeout=120)
-            except subprocess.TimeoutExpired:
-                return ("TIMEOUT",)      # a loaded machine, not a verdict: the caller skips the case
-            caps = [l for l in p.stdout.decode("latin-1").split("\n") if l.startswith("CAP ")]
-            if len(caps) != 1:
-                return ("ERR",)
-            parts = caps[0].split(" ")
-            fields = []
-            for h in parts[2:]:
-                fields.append("" if h == "-" else bytes.fromhex(h).decode("utf-8", "replace"))
-            return ("OK", fields)
+        scripts = [bash_script(c) for c in cases]
         for c in cases:
             self.dir_for(c.names)
+        idx = [i for i, s in enumerate(scripts) if s is not None]
+        chunks = [idx[k:k + batch] for k in range(0, len(idx), batch)]
+        out = [None] * len(cases)
+
+        def one(chunk):
+            parts = [BASH_PRELUDE, 'run_case() { ( cd "$1" || exit 3; eval "$2" ) 2>/dev/null; }\n']
+            for i in chunk:
+                parts.append("printf 'CASE %d\\n'\nrun_case %s %s\n" % (i, sq(self.dir_for(cases[i].names)), sq(scripts[i])))
+            try:
+                p = subprocess.run(["/usr/bin/bash", "--norc", "--noprofile", "-c", "".join(parts)],
+                                   stdout=subprocess.PIPE, stderr=subprocess.DEVNULL,
+                                   env={"LC_ALL": "C.UTF-8", "PATH": "/usr/bin:/bin"}, timeout=300)
+            except subprocess.TimeoutExpired:
+                return [(i, ("TIMEOUT",)) for i in chunk]
+            res, state = {}, {"cur": None, "caps": []}
+            for line in p.stdout.decode("latin-1").split("\n"):
+                if line.startswith("CASE "):
+                    if state["cur"] is not None:
+                        res[state["cur"]] = state["caps"]
+                    state = {"cur": int(line[5:]), "caps": []}
+                elif line.startswith("CAP "):
+                    state["caps"].append(line)
+            if state["cur"] is not None:
+                res[state["cur"]] = state["caps"]
+            ret = []
+            for i in chunk:
+                cs = res.get(i)
+                if cs is None:
+                    ret.append((i, ("TIMEOUT",)))      # the batch died before reaching this case
+                elif len(cs) != 1:
+                    ret.append((i, ("ERR",)))
+                else:
+                    fields = ["" if h == "-" else bytes.fromhex(h).decode("utf-8", "replace") for h in cs[0].split(" ")[2:]]
+                    ret.append((i, ("OK", fields)))
+            return ret
         with ThreadPoolExecutor(jobs) as ex:
-            return list(ex.map(one, cases))
+            for ret in ex.map(one, chunks):
+                for i, r in ret:
+                    out[i] = r
+        return out
 
     def close(self):
         shutil.rmtree(self.base, ignore_errors=True)
